@@ -35,6 +35,8 @@ template <class K, class Node> static std::string shape(const Node* n, bool mirr
     if (!n || depth > 200) return "[]";
     return "[" + std::to_string(un_key(n->key, mirror)) + "," + shape<K>(n->left, mirror, depth + 1) + "," + shape<K>(n->right, mirror, depth + 1) + "]";
 }
+template <class T> struct cmp_of;
+template <class K, class C, bool D, class A> struct cmp_of<tlx::SplayTree<K, C, D, A>> { using type = C; };
 struct TLess { bool operator()(const Tracked& a, const Tracked& b) const { return a < b; } };
 
 template <class K> K mk(long long k, bool mirror);
@@ -47,7 +49,7 @@ template <> long long un<int>(const int& k, bool mirror) { return mirror ? 100 -
 template <class K, class Tree>
 static void run(Out& out, int variant, bool dup, bool mirror, std::istringstream& is, size_t nops) {
     ledger().reset(); g_blocks = 0; g_alloc_err = 0; g_sizes.clear();
-    std::unique_ptr<Tree> t(new Tree());
+    std::unique_ptr<Tree> t(new Tree(typename cmp_of<Tree>::type(1)));        // armed comparator object: see VF_Stateful
     auto emit = [&](Ev& ev, bool alive) {
         std::vector<long long> ks;
         bool chk = true; size_t sz = 0; bool em = true;
@@ -92,10 +94,10 @@ int main(int argc, char** argv) {
         int variant; size_t nops; is >> variant >> nops;
         using namespace tlx;
         switch (variant) {
-        case 0: run<Tracked, SplayTree<Tracked, TLess, false, CountAlloc<Tracked>>>(out, variant, false, false, is, nops); break;
-        case 1: run<Tracked, SplayTree<Tracked, TLess, true, CountAlloc<Tracked>>>(out, variant, true, false, is, nops); break;
-        case 2: run<int, SplayTree<int, std::greater<int>, false, CountAlloc<int>>>(out, variant, false, true, is, nops); break;
-        default: run<int, SplayTree<int, std::greater<int>, true, CountAlloc<int>>>(out, variant, true, true, is, nops); break;
+        case 0: run<Tracked, SplayTree<Tracked, VF_Stateful<TLess>, false, CountAlloc<Tracked>>>(out, variant, false, false, is, nops); break;
+        case 1: run<Tracked, SplayTree<Tracked, VF_Stateful<TLess>, true, CountAlloc<Tracked>>>(out, variant, true, false, is, nops); break;
+        case 2: run<int, SplayTree<int, VF_Stateful<std::greater<int>>, false, CountAlloc<int>>>(out, variant, false, true, is, nops); break;
+        default: run<int, SplayTree<int, VF_Stateful<std::greater<int>>, true, CountAlloc<int>>>(out, variant, true, true, is, nops); break;
         }
     }
     out.flush();
